@@ -66,8 +66,18 @@ fn emit_case(
         obs_g,
         g_list(instances, g_json)
     );
+    // the source as JSON too (for tools/c08_xcheck.py and for reading evidence)
+    let obs_j = json!({
+        "published": obs_j,
+        "source": {
+            "name": src.name,
+            "schema": serde_json::to_value(&src.schema).unwrap(),
+            "defs": defs_json(&src.defs).into_iter().map(|(n, s)| json!([n, s])).collect::<Vec<_>>(),
+        },
+    });
     tags.push(format!("instances:{}", (instances.len() / 4) * 4));
-    tags.push(format!("nodes:{}", schema_nodes(&src.schema).min(12)));
+    let nodes = schema_nodes(&src.schema) + src.defs.iter().map(|(_, d)| schema_nodes(d)).sum::<usize>();
+    tags.push(format!("nodes:{}", if nodes >= 12 { "12+".to_string() } else { format!("{:02}", nodes) }));
     emit(e.out, &Line { group, case, obs: obs_j, coq, tags, nontrivial });
     e.count += 1;
 }
@@ -437,7 +447,7 @@ fn run(opts: &Opts, replay: Option<Vec<Value>>, out: &mut dyn Write) {
         }
         return;
     }
-    let (n_sup, n_inj_each, n_param) = if opts.thorough { (3600, 40, 500) } else { (380, 5, 60) };
+    let (n_sup, n_inj_each, n_param) = if opts.thorough { (4000, 50, 500) } else { (600, 8, 80) };
     // (ii) the derived family, at both body sites and as query parameters
     for t in type_family() {
         for site in [Site::Response, Site::Body] {
